@@ -16,7 +16,7 @@ LEVEL = "model_checking"
 DESIGN_REF = "DESIGN.md 5 C04"
 RULE = (
     "case = (row/L assembly of 2-3 lattice cells with unequal edge lengths (stretched, jittered, tapered, one arc), "
-    "subject direction, chop kind x preserve mode x single/two-section, corner numbering of every block); one chop per "
+    "subject direction, chop kind x preserve mode x single/two-section/two-section-mixed (preserving section + plain bulk section), corner numbering of every block); one chop per "
     "edge family (family model), executed by assemble+write; only the written file is observed and decoded onto the 12 "
     "edges of each block with blockMesh's progression. non-trivial = subject family spans >=2 blocks with unequal edge lengths"
 )
@@ -86,8 +86,10 @@ def cases(tier, seed):
             for geom in geoms:
                 for kind in KINDS:
                     for pres in PRESERVE:
-                        for sections in (1, 2):
-                            if tier == "quick" and sections == 2 and kind in ("count_end", "count_total"):
+                        for sections in (1, 2, "2m"):
+                            if tier == "quick" and sections != 1 and kind in ("count_end", "count_total"):
+                                continue
+                            if sections == "2m" and pres == "c2c_expansion":
                                 continue
                             out.append({"assembly": name, "dir": g, "geom": geom, "kind": kind, "preserve": pres, "sections": sections, "tier": tier})
     return out
@@ -108,6 +110,10 @@ def subject_chops(case, size_g):
         return [kw]
     a = dict(kw, length_ratio=0.3)
     b = dict(kw, length_ratio=0.7)
+    if case["sections"] == "2m":
+        # a size-preserving (wall) section followed by a bulk section that keeps its cell-to-cell ratio: the four
+        # parallel edges of a block then differ in the FIRST section only
+        b = {"length_ratio": 0.7, "count": 4, "c2c_expansion": 1.1}
     # sizes are absolute: make the first (short) section finer so that it holds at least a few cells
     for k in ("start_size", "end_size"):
         if k in a:
@@ -281,6 +287,8 @@ def run_case(case):
                         val = s[0] if pres == "start_size" else s[-1]
                         per_section.setdefault(k, []).append((val, (i1, i2), cell, length))
             for k, vals in per_section.items():
+                if k < len(user) and user[k].get("preserve", "c2c_expansion") != pres:
+                    continue
                 given = user[k].get(pres) if k < len(user) else None
                 ref = given if given is not None else vals[0][0]
                 for val, e, cell, length in vals:
